@@ -309,7 +309,7 @@ func sweepBytes(yield func(history) bool) {
 
 func props() []rp.Prop {
 	return []rp.Prop{
-		rp.P[history]{Name: "history", Checks: ev.Pick(4000, 150000) / ev.Shards(), Gen: genHistory, Sweep: sweepBytes, Check: checkHistory},
+		rp.P[history]{Name: "history", Checks: ev.Pick(12000, 2000000) / ev.Shards(), Gen: genHistory, Sweep: sweepBytes, Check: checkHistory},
 	}
 }
 
